@@ -42,18 +42,27 @@ func jsMasker(cur []byte) func(int) bool {
 // runC03Deep is the "absurdly deep but well-formed input" scenario: the stream readers build their
 // trees from tokens, one node per level, and everything downstream walks the tree recursively.
 func runC03Deep(c *Ctx) []Violation {
-	format := c.T.Pick("c03.deep.format", "json", "xml")
+	format := c.T.Pick("c03.deep.format", "json", "xml", "json")
 	depth := []int{12000, 300000}[c.T.Intn("c03.deep.depth", 2)]
 	target := c.T.Pick("c03.deep.target", ".", "/*")
 	var in strings.Builder
-	if format == "json" {
-		in.WriteString(strings.Repeat("[", depth) + strings.Repeat("]", depth))
-	} else {
-		in.WriteString(strings.Repeat("<a>", depth) + strings.Repeat("</a>", depth))
-	}
 	out := `{"custom_func": {"name": "copy"}}`
 	if c.T.Bool("c03.deep.const") {
 		out = `{"object": {"k": {"const": "k"}}}`
+	}
+	if c.T.Chance("c03.deep.script-result", 1, 3) {
+		// ... or it is a script's result that is nested that deep (built by a loop of a few lines)
+		format, target = "json", "/*"
+		in.WriteString(`[{"x":1}]`)
+		shape := c.T.Pick("c03.deep.script-shape", "r = [r]", "r = {n: r}", "r = [1, r]")
+		out = fmt.Sprintf(`{"object": {"a": {"custom_func": {"name": "javascript", "args": [{"const": "var r = []; for (var i = 0; i < %d; i++) { %s } r"}]}}}}`, depth, shape)
+		if c.T.Bool("c03.deep.script-result.twice") {
+			out = out[:len(out)-2] + `, "b": ` + out[len(`{"object": {"a": `):]
+		}
+	} else if format == "json" {
+		in.WriteString(strings.Repeat("[", depth) + strings.Repeat("]", depth))
+	} else {
+		in.WriteString(strings.Repeat("<a>", depth) + strings.Repeat("</a>", depth))
 	}
 	schema := `{"parser_settings": {"version": "omni.2.1", "file_format_type": "` + format + `"}, "transform_declarations": {"FINAL_OUTPUT": {"xpath": "` + target + `", ` + out[1:] + `}}`
 	w := &world.World{Name: fmt.Sprintf("deep:%s(depth=%d)", format, depth), Format: format, Schema: []byte(schema), Input: []byte(in.String())}
